@@ -410,7 +410,7 @@ def new_rule(ctx, am):
             return e
         return normal._Expr().visit(normal._Subst(mapping).visit(normal.clone(e)))
     skip_tests = [(resolved(t), n) for t, n in skip_tests]
-    covered = 'set(%s.key_map.values()) - set(%s.keys())' % (lv, ra)
+    covered = 'set(%s.key_map.values()) - set(%s)' % (lv, ra)
     allowed_skips = {covered, 'not %s' % qvar}
     ok = any(src(t) == covered for t, _ in skip_tests)
     for t, s_ in skip_tests:
